@@ -13,6 +13,10 @@
 (*                and evaluate the result (the C08 round trip applied to a *)
 (*                model that came from read: the exporter obtains the      *)
 (*                formulas from the SOURCE of m_d's functions)             *)
+(*   Rewrite(d)   the FILE of document d is replaced by another document   *)
+(*                (its twin: same layout, other meaning); models handed    *)
+(*                out earlier are not affected, the next Read(d) returns   *)
+(*                the model of the file's CURRENT content                  *)
 (* SPECIFICATION (Registry = "none"): the outcome of every call is the     *)
 (* meaning of document d and nothing else - every model behaves as if its  *)
 (* document had been read alone.  ReadAlone is that statement as an        *)
@@ -31,12 +35,16 @@
 (* must refute ReadAlone: Read(d1), Read(d2), Export(d1) silently exports  *)
 (* d2's rate laws under d1's names (when both documents have the same      *)
 (* layout; otherwise the export fails or is garbage).                      *)
+(* WRONG INSTANCE (Registry = "pathmemo"): read memoises the parsed        *)
+(* document by PATH; Read(d), Rewrite(d), Read(d) hands out the model of   *)
+(* the text the file held at the FIRST read.  TLC must refute ReadAlone.   *)
 (* Every session of length MaxOps is emitted with the expected outcomes    *)
 (* (spec -> code); the replayer binds each d to a real generated document. *)
 (***************************************************************************)
 EXTENDS Integers, Sequences, FiniteSets, TLC, Json
 
-CONSTANTS Docs, MaxOps, Registry, EmitOn
+CONSTANTS Docs, MaxOps, Registry, EmitOn,
+          RewriteDocs     \* documents whose file may be replaced (a subset of Docs: keeps the number of sessions small)
 
 FileOf == <<[dir |-> "a", stem |-> "model"],
             [dir |-> "b", stem |-> "model"],
@@ -46,46 +54,63 @@ San(stem) == CASE stem = "model" -> "mb_model" [] stem = "Model-1" -> "mb_model_
 Mod(d) == San(FileOf[d].stem)
 Mods == {Mod(d) : d \in Docs}
 
-VARIABLES have, reg, hist, alone
+\* a file holds version 0 (the document) or 1 (its twin); a model is the version its file held when it was read
+VARIABLES have, reg, hist, alone, disk, held, memo
 
-vars == <<have, reg, hist, alone>>
+vars == <<have, reg, hist, alone, disk, held, memo>>
+None == 0 - 1
 
 Init ==
     /\ have = {}                          \* documents whose model the session holds
     /\ reg = [m \in Mods |-> 0]           \* wrong instances: which document's functions / source text a name denotes
     /\ hist = <<>>
     /\ alone = TRUE                       \* every outcome so far equals the outcome of a session that only read d
+    /\ disk = [d \in Docs |-> 0]          \* which text the file of d currently holds
+    /\ held = [d \in Docs |-> None]       \* which text the model m_d was built from
+    /\ memo = [d \in Docs |-> None]       \* wrong instance "pathmemo": the text parsed at the first read of the path
 
-Op(o, d) == [op |-> o, d |-> d]
+\* ver: the version of d's text the outcome of the call must correspond to
+Op(o, d, v) == [op |-> o, d |-> d, ver |-> v]
 
 Read(d) ==
     /\ have' = have \cup {d}
     /\ reg' = IF Registry \in {"stem", "source"} THEN [reg EXCEPT ![Mod(d)] = d] ELSE reg
-    /\ hist' = Append(hist, Op("read", d))
-    /\ UNCHANGED alone
+    /\ held' = [held EXCEPT ![d] = disk[d]]
+    /\ memo' = IF memo[d] = None THEN [memo EXCEPT ![d] = disk[d]] ELSE memo
+    /\ hist' = Append(hist, Op("read", d, disk[d]))
+    /\ alone' = (alone /\ (Registry = "pathmemo" => memo'[d] = disk[d]))
+    /\ UNCHANGED disk
+
+Rewrite(d) ==
+    /\ d \in RewriteDocs
+    /\ disk' = [disk EXCEPT ![d] = 1 - @]
+    /\ hist' = Append(hist, Op("rewrite", d, 1 - disk[d]))
+    /\ UNCHANGED <<have, reg, alone, held, memo>>
 
 Evaluate(d) ==
     /\ d \in have
-    /\ hist' = Append(hist, Op("eval", d))
-    /\ UNCHANGED <<have, reg, alone>>
+    /\ hist' = Append(hist, Op("eval", d, held[d]))
+    /\ UNCHANGED <<have, reg, alone, disk, held, memo>>
 
 \* the copy is built from the functions the table holds under the model's module name
 Ship(d) ==
     /\ d \in have
-    /\ hist' = Append(hist, Op("ship", d))
+    /\ hist' = Append(hist, Op("ship", d, held[d]))
     /\ alone' = (alone /\ (Registry = "stem" => reg[Mod(d)] = d))
-    /\ UNCHANGED <<have, reg>>
+    /\ UNCHANGED <<have, reg, disk, held, memo>>
 
 \* the exporter reads the source text of m_d's functions: the file registered under the module name
 Export(d) ==
     /\ d \in have
-    /\ hist' = Append(hist, Op("export", d))
+    /\ hist' = Append(hist, Op("export", d, held[d]))
     /\ alone' = (alone /\ (Registry = "source" => reg[Mod(d)] = d))
-    /\ UNCHANGED <<have, reg>>
+    /\ UNCHANGED <<have, reg, disk, held, memo>>
 
-Next == Len(hist) < MaxOps /\ \E d \in Docs : Read(d) \/ Evaluate(d) \/ Ship(d) \/ Export(d)
+Next == Len(hist) < MaxOps /\ \E d \in Docs : Read(d) \/ Rewrite(d) \/ Evaluate(d) \/ Ship(d) \/ Export(d)
 Spec == Init /\ [][Next]_vars
 
+\* every model handed out is the model of the text its file held at the time of the read, whatever else was read,
+\* shipped, exported or rewritten before and after
 ReadAlone == alone
 
 \* the shape the classifier uses: a Ship / Export of d after a later Read of another document with the same module name
@@ -95,10 +120,16 @@ Collides(h, k) ==
                              /\ \E m \in 1..(j - 1) : h[m].op = "read" /\ h[m].d = h[k].d
                              /\ \A m \in (j + 1)..(k - 1) : ~(h[m].op = "read" /\ h[m].d = h[k].d)
 
+\* a Read of a path that was read before and rewritten since
+Reread(h, k) ==
+    /\ h[k].op = "read"
+    /\ \E j \in 1..(k - 1) : h[j].op = "read" /\ h[j].d = h[k].d /\ h[j].ver # h[k].ver
+
 Emit ==
-    (EmitOn /\ Len(hist) = MaxOps /\ hist[MaxOps].op # "read") =>
+    (EmitOn /\ Len(hist) = MaxOps /\ hist[MaxOps].op \notin {"read", "rewrite"}) =>
         PrintT("@J@" \o ToJson([ops |-> hist,
                                 files |-> [d \in Docs |-> FileOf[d]],
                                 mods |-> [d \in Docs |-> Mod(d)],
-                                collide |-> {k \in DOMAIN hist : Collides(hist, k)}]) \o "@E@")
+                                collide |-> {k \in DOMAIN hist : Collides(hist, k)},
+                                reread |-> {k \in DOMAIN hist : Reread(hist, k)}]) \o "@E@")
 =============================================================================
